@@ -193,6 +193,29 @@ func gcmCase(c *ev.Case) {
 		c.Add("gcm_char_corruptions", 1)
 	}
 
+	// 3b'. complete sweep: at a few positions of the text every one of the 255 other
+	// byte values (control characters, bytes that differ from a hex digit in one
+	// bit, non-ASCII, ...) must be rejected, unless it is the same hex digit in
+	// the other letter case
+	for k := 0; k < 3; k++ {
+		i := rng.Intn(len(ct))
+		if k == 0 {
+			i = rng.Intn(min(len(ct), 32)) // magic / salt
+		}
+		for v := 0; v < 256; v++ {
+			ch := byte(v)
+			if ch == ct[i] || (hexVal(ch) >= 0 && hexVal(ch) == hexVal(ct[i])) {
+				continue
+			}
+			mut := append([]byte{}, ct...)
+			mut[i] = ch
+			if !gcmMustReject(c, t, "gcm-tamper/text", lz("a text whose character %d was changed %q->%q", i, ct[i], ch), nil, s, a, rng, mut) {
+				return
+			}
+		}
+		c.Add("gcm_char_positions_swept_all_values", 1)
+	}
+
 	// 3c. secret altered, additional data altered, the two swapped
 	for k := 0; k < 3; k++ {
 		s2, how := differentBytes(rng, s)
